@@ -468,14 +468,15 @@ func (el *EventList) Verify(acc *Accumulator) error {
 	if count == 0 {
 		return nil
 	}
+	if err = events[count-1].hashEquals(acc.EventHash); err != nil {
+		return errors.WrapPrefix(err, "update chain has wrong hash", 0)
+	}
+	// the internal consistency of the chain (parent hashes, indices) need not be checked twice
 	if el.verified {
 		if el.validationErr != nil {
 			return el.validationErr
 		}
 		return nil
-	}
-	if err = events[count-1].hashEquals(acc.EventHash); err != nil {
-		return errors.WrapPrefix(err, "update chain has wrong hash", 0)
 	}
 
 	// Verify the hashes of the chain, computing the product of all revoked attributes along the way
